@@ -83,6 +83,33 @@ RETCODE adfRenameEntry ( struct AdfVolume * const vol,
         return RC_ERROR;
     }
 
+    /* the new name must not exist in the destination directory
+       (a case variant of the entry's own name is fine) */
+    rc = adfReadEntryBlock ( vol, nPSect, &nParent );
+    if ( rc != RC_OK )
+        return rc;
+    nSect2 = adfNameToEntryBlk ( vol, nParent.hashTable, newName, &previous, NULL );
+    if ( nSect2 != -1 && nSect2 != nSect ) {
+        (*adfEnv.wFct)("adfRenameEntry : entry already exists");
+        return RC_ERROR;
+    }
+
+    /* a directory cannot be moved into itself or one of its subdirectories */
+    if ( entry.secType == ST_DIR ) {
+        SECTNUM up = nPSect;
+        int32_t steps = vol->lastBlock - vol->firstBlock + 1;
+        while ( up != vol->rootBlock && steps-- > 0 ) {
+            if ( up == nSect ) {
+                (*adfEnv.wFct)("adfRenameEntry : destination is inside the moved directory");
+                return RC_ERROR;
+            }
+            rc = adfReadEntryBlock ( vol, up, &previous );
+            if ( rc != RC_OK )
+                return rc;
+            up = previous.parent;
+        }
+    }
+
     /* change name and parent dir */
     entry.nameLen = (uint8_t) len;
     memcpy(entry.name, newName, entry.nameLen);
